@@ -148,14 +148,16 @@ theorem newLispError_idem (e : Err) (c c' : Val) :
   | lisp v pos => cases pos <;> simp [newLispError, caughtValue] <;> cases getPosition c <;> rfl
   | plain m => simp [newLispError, caughtValue]; cases getPosition c <;> rfl
 
-/-- the builtin `throw` applied to a value that is not a Go error object throws exactly that value -/
-theorem call_throw (v : Val) (hv : ∀ m, v ≠ .goerr m) : Core.call "throw" [v] = some (.thrown v) := by
-  cases v <;> first | rfl | exact absurd rfl (hv _)
+/-- the builtin `throw`: a lisp value is thrown as it is; a Go error object is returned as that Go error -/
+theorem call_throw (v : Val) :
+    Core.call "throw" [v] = some (match v with | .goerr m => .goerr m | v => .thrown v) := by
+  cases v <;> rfl
 
-theorem callBuiltin_throw (F : Nat) (st : State) (v : Val) (hv : ∀ m, v ≠ .goerr m) (d : Nat) :
+/-- either way the error coming out of the builtin carries exactly `v` as payload -/
+theorem callBuiltin_throw (F : Nat) (st : State) (v : Val) (d : Nat) :
     callBuiltin (F + 1) st "throw" [v] d = (.err (.lisp v none), st) := by
   rw [callBuiltin.eq_def]
-  simp [call_throw v hv]
+  cases v <;> simp [call_throw]
 
 /-! ### errors propagate unchanged -/
 
@@ -300,10 +302,10 @@ theorem eval_selfEval {st : State} (hs : st.stepper = none) (hl : Live st) (F en
   rw [eval_noStepper hs, evalLoop_live hl]
   cases v <;> first | exact absurd hv id | (simp only [liveBody]; rw [evalAst] <;> (intros; rename_i hh; cases hh))
 
-/-- `(throw x)`: the value of `x` (not a Go error object) arrives as the payload of the returned error -/
+/-- `(throw x)`: the value of `x` arrives as the payload of the returned error -/
 theorem throw_delivers {st : State} (hs : st.stepper = none) (hc : st.cancelAt = none) {env : Nat}
     (hthrow : st.get env "throw" = some (.builtin "throw")) (F p x pos d v s1)
-    (hx : eval (F + 2) (tick (tick st)) env x (d + 1) = (.ok v, s1)) (hv : ∀ m, v ≠ .goerr m) :
+    (hx : eval (F + 2) (tick (tick st)) env x (d + 1) = (.ok v, s1)) :
     evalLoop (F + 5) st env (.list [.sym "throw" p, x] pos) d = (.err (.lisp v pos), s1) := by
   have hm : NotMacro st env "throw" := by intro a b c e h; rw [hthrow] at h; cases h
   rw [evalLoop_dispatch (live_of_none hc) hm, dispatch_app _ _ _ _ _ _ _ _ _ (by decide)]
@@ -311,7 +313,7 @@ theorem throw_delivers {st : State} (hs : st.stepper = none) (hc : st.cancelAt =
     eval_sym (st := tick st) hs (live_of_none hc) F env _ p _ _ (by rw [tick_get]; exact hthrow)
   have h2 : evalList (F + 4) (tick st) env [.sym "throw" p, x] d = (.ok [.builtin "throw", v], s1) := by
     rw [evalList_cons_ok h1, evalList_cons_ok hx, evalList]
-  simp only [appArm, h2, callArm, callBuiltin_throw _ _ v hv]
+  simp only [appArm, h2, callArm, callBuiltin_throw _ _ v]
   rfl
 
 /-! ### C04: every error is catchable -/
@@ -475,5 +477,169 @@ theorem tryArm_caught (F : Nat) (st : State) (env : Nat) (parts : TryParts) (d :
       afterFinally r (doForms F s2 env fin 0 false d) := by
   rw [tryArm, h, handlerStage_caught F parts env d e s1 hd hb (bindParams_one hx p _), hh,
     finallyStage_some' F parts env d _ hr s2 hf]
+
+/-! ### more propagation: macro expansion, `update`, and the Props-level packaging -/
+
+/-- `macroexpand`: an error while running a macro body is returned unchanged -/
+theorem macroexpand_err {F st env s p args pos d params body fenv mp data e s1}
+    (hg : st.get env s = some (.fn params body fenv true mp)) (hb : bindParams params args = .ok data)
+    (h : eval F (st.newScope fenv data).1 (st.newScope fenv data).2 body (d + 1) = (.err e, s1)) :
+    macroexpand (F + 1) st env (.list (.sym s p :: args) pos) d = (.err e, s1) := by
+  rw [macroexpand]; simp only [hg, hb, h]
+
+/-- …and the loop iteration that was expanding the macro call returns it unchanged too -/
+theorem evalLoop_macroexpand_err {st : State} (hl : Live st) {F env xs pos d e s1}
+    (h : macroexpand F (tick st) env (.list xs pos) d = (.err e, s1)) :
+    evalLoop (F + 1) st env (.list xs pos) d = (.err e, s1) := by
+  rw [evalLoop_live hl]; simp only [liveBody, h]
+
+/-- `update`: the error of the callback is returned unchanged -/
+theorem callBuiltin_update_err {F st m k f d e s1}
+    (h : apply F st f [(alookup k m).getD .nil] d = (.err e, s1)) :
+    callBuiltin (F + 2) st "update" [.map m, .str k, f] d = (.err e, s1) := by
+  rw [callBuiltin.eq_def]
+  have : update1 (F + 1) st (.map m) (.str k) f d = (.err e, s1) := by
+    rw [update1.eq_def]; simp [h]
+  simp [this]
+
+theorem tryArm_body_ok (F : Nat) (st : State) (env : Nat) (parts : TryParts) (d : Nat) (v : Val)
+    (s1 : State) (hbody : doForms F st env parts.body 0 false d = (.ok v, s1)) :
+    handlerStage F parts env d (doForms F st env parts.body 0 false d) = (.ok v, s1) ∧
+    tryArm F st env parts d = finallyStage F parts env d (.ok v, s1) ∧
+    ((tryArm F st env parts d).1 = .ok v ∨ (tryArm F st env parts d).1 = .oof) := by
+  refine ⟨by rw [hbody]; rfl, by rw [tryArm, hbody]; rfl, ?_⟩
+  rw [tryArm, hbody]; exact finallyStage_result F parts env d (.ok v, s1)
+
+theorem tryArm_uncaught_result (F : Nat) (st : State) (env : Nat) (parts : TryParts) (d : Nat) (e : Err)
+    (s1 : State) (hbody : doForms F st env parts.body 0 false d = (.err e, s1)) (hc : parts.catchDo = none) :
+    (tryArm F st env parts d).1 = .err e ∨ (tryArm F st env parts d).1 = .oof := by
+  rw [tryArm, hbody, handlerStage_uncaught F parts env d e s1 hc]; exact finallyStage_result F parts env d _
+
+/-- creating a scope leaves every existing scope untouched -/
+theorem newScope_keeps_scopes (s1 : State) (env : Nat) (data : List (String × Val)) (i : Nat)
+    (hi : i < s1.scopes.size) :
+    (s1.newScope env data).1.scopes[i]? = s1.scopes[i]? ∧ (s1.newScope env data).2 = s1.scopes.size ∧
+    (s1.newScope env data).2 ≠ i := by
+  refine ⟨?_, rfl, Nat.ne_of_gt hi⟩
+  simp [State.newScope, Array.getElem?_push, Nat.ne_of_lt hi]
+
+theorem res_cases (r : Res Val) : (∃ v, r = .ok v) ∨ (∃ e, r = .err e) ∨ r = .oof := by
+  cases r <;> simp
+
+/-! ### C07: any `try` form adds at most two polls once its body has ended past the deadline -/
+
+/-- past the deadline: still cancelled, no debugger, no observable effect, at most `k` more polls
+    (the scope store may have grown by the handler scope) -/
+structure AfterDeadline (s s' : State) (k : Nat) : Prop where
+  trace : s'.trace = s.trace
+  marks : s'.marks = s.marks
+  atoms : s'.atoms = s.atoms
+  ticks : s'.ticks ≤ s.ticks + k
+  cancelled : Cancelled s'
+  stepper : s'.stepper = none
+
+theorem AfterDeadline.refl {s : State} (hc : Cancelled s) (hs : s.stepper = none) (k : Nat) :
+    AfterDeadline s s k := ⟨rfl, rfl, rfl, Nat.le_add_right _ _, hc, hs⟩
+
+theorem AfterDeadline.of_amop {s s' : State} (hc : Cancelled s) (hs : s.stepper = none)
+    (h : AtMostOnePoll s s') : AfterDeadline s s' 1 := by
+  rcases h with e | e <;> subst e
+  · exact .refl hc hs 1
+  · exact ⟨rfl, rfl, rfl, Nat.le_refl _, hc.tick, hs⟩
+
+theorem AfterDeadline.trans {a b c : State} {j k : Nat} (h1 : AfterDeadline a b j) (h2 : AfterDeadline b c k) :
+    AfterDeadline a c (j + k) :=
+  ⟨h2.trace.trans h1.trace, h2.marks.trans h1.marks, h2.atoms.trans h1.atoms,
+   by have := h1.ticks; have := h2.ticks; omega, h2.cancelled, h2.stepper⟩
+
+theorem handlerStage_afterDeadline {s1 : State} (hc : Cancelled s1) (hs : s1.stepper = none)
+    (F : Nat) (parts : TryParts) (env d : Nat) (r : Res Val) :
+    AfterDeadline s1 (handlerStage F parts env d (r, s1)).2 1 := by
+  unfold handlerStage
+  dsimp only
+  split
+  · exact .refl hc hs 1
+  · exact .refl hc hs 1
+  · split
+    · split
+      · exact .refl hc hs 1
+      · have h0 : AfterDeadline s1 (s1.newScope env ‹_›).1 0 := ⟨rfl, rfl, rfl, Nat.le_refl _, hc, hs⟩
+        exact h0.trans (.of_amop (hc.newScope env _) hs (doForms_cancelled_any (hc.newScope env _) hs F _ _ _ _ d))
+    · exact .refl hc hs 1
+
+theorem finallyStage_afterDeadline {s2 : State} (hc : Cancelled s2) (hs : s2.stepper = none)
+    (F : Nat) (parts : TryParts) (env d : Nat) (r : Res Val) :
+    AfterDeadline s2 (finallyStage F parts env d (r, s2)).2 1 := by
+  unfold finallyStage
+  dsimp only
+  split
+  · exact .refl hc hs 1
+  · split
+    · simp only [outing1Defer, hs]; exact .refl hc hs 1
+    · have := AfterDeadline.of_amop hc hs (doForms_cancelled_any hc hs F env ‹_› 0 false d)
+      split <;> (rename_i heq; rw [heq] at this; exact this)
+
+/-- whatever its clauses are, a try form whose body ended (with any result) in a cancelled state returns after
+    at most two more polls, with no effect -/
+theorem try_afterDeadline {s1 : State} (hc : Cancelled s1) (hs : s1.stepper = none)
+    (F : Nat) (parts : TryParts) (env d : Nat) (r : Res Val) :
+    AfterDeadline s1 (finallyStage F parts env d (handlerStage F parts env d (r, s1))).2 2 := by
+  have h1 := handlerStage_afterDeadline hc hs F parts env d r
+  have h2 := finallyStage_afterDeadline h1.cancelled h1.stepper F parts env d (handlerStage F parts env d (r, s1)).1
+  exact h1.trans h2
+
+/-! ### deviation: a catch clause whose variable does not bind loses the thrown value -/
+
+theorem bindParams_amp (p : Option Pos) (v : Val) :
+    bindParams (.list [.sym "&" p] none) [v] =
+      .error (.lisp (.goerr "'&' must be followed by a parameter name") none) := by
+  simp only [bindParams]; rw [bindLoop]; intro _ _ _ h; cases h
+
+theorem bindParams_nonSym (b : Val) (hb : ∀ s q, b ≠ .sym s q) (v : Val) :
+    bindParams (.list [b] none) [v] = .error (.lisp (.goerr "cannot use value as parameter name") none) := by
+  simp only [bindParams]
+  cases b <;> first | exact absurd rfl (hb _ _) | (rw [bindLoop] <;> (intros; rename_i hh; cases hh))
+
+/-- `(catch & …)` / `(catch 1 …)`: the handler is NOT run and the form returns the binder's error instead of
+    the thrown one (the thrown value is lost) -/
+theorem handlerStage_bad_binder (F : Nat) (parts : TryParts) (env d : Nat) (e : Err) (s1 : State)
+    (handler : List Val) (b : Val) (hd : parts.catchDo = some handler) (hb : parts.catchBind = some b)
+    (hbad : (∃ p, b = .sym "&" p) ∨ (∀ s q, b ≠ .sym s q)) :
+    ∃ msg, handlerStage F parts env d (.err e, s1) = (.err (.lisp (.goerr msg) none), s1) := by
+  rcases hbad with ⟨p, rfl⟩ | hns
+  · exact ⟨"'&' must be followed by a parameter name", by simp only [handlerStage, hd, hb, bindParams_amp]⟩
+  · exact ⟨"cannot use value as parameter name", by simp only [handlerStage, hd, hb, bindParams_nonSym b hns]⟩
+
+/-! ### C04: wrong argument counts / types of the reflectively bound builtins -/
+
+/-- the builtins with an effect on the store or a callback; every other name goes through `Core.call` -/
+def effectfulNames : List String :=
+  ["trace!", "depth!", "eval", "apply", "map", "atom", "deref", "reset!", "swap!", "update", "update-in"]
+
+theorem callBuiltin_pure (F : Nat) (st : State) (name : String) (args : List Val) (d : Nat)
+    (hn : name ∉ effectfulNames) :
+    callBuiltin (F + 1) st name args d =
+      match Core.call name args with
+      | some (.ok v) => (.ok v, st)
+      | some (.thrown v) => (.err (.lisp v none), st)
+      | some (.goerr m) => (.err (.lisp (.goerr m) none), st)
+      | none => (.err (.lisp (.goerr ("unmodelled builtin " ++ name)) none), st) := by
+  simp only [effectfulNames, List.mem_cons, List.not_mem_nil, or_false, not_or] at hn
+  rw [callBuiltin.eq_def]
+  simp only [hn, ↓reduceIte]
+  rfl
+
+/-- a pure builtin called with a wrong number of arguments or a wrong argument type (the binder's check
+    `checkSig` fails) returns an error — in Go: the recovered `reflect.Value.Call` panic — and leaves the state
+    untouched -/
+theorem wrong_arguments_error (F : Nat) (st : State) (name : String) (args : List Val) (d : Nat)
+    (hn : name ∉ effectfulNames) (s : Sig) (hs : sigOf name = some s) (msg : String)
+    (hc : checkSig s args = some msg) :
+    ∃ e, callBuiltin (F + 1) st name args d = (.err e, st) := by
+  rw [callBuiltin_pure F st name args d hn]
+  simp only [Core.call, hs, hc]
+  split
+  · rename_i h; split at h <;> cases h
+  all_goals exact ⟨_, rfl⟩
 
 end LispModel.Proofs.EvalTry
